@@ -43,10 +43,10 @@ CLAIM = ("Every EOS class of the library with every constants vector of its latt
 LEVEL_NOTE = ("trusted: numpy, the finite-difference stencils, the transcription of the three documented jump conditions; assumed: "
               "defects confined to states/constants between lattice values are not seen; derivative identities are decided to 1e-6 "
               "by finite differences, not exactly; 'physically reasonable starting guess' is the rule stated in the module docstring")
-BOUND = {"quick": "33 EOS instances x 9-10 densities x 7 values; 4 residual classes x 9 EOS x 3 symmetries x 4 initial states x 5^3 states; "
-                  "Newton: 7 EOS x 3 geometries x 2-4 initial states x 4 guesses",
-         "thorough": "33 EOS instances x 17 densities x 12 values; 4 residual classes x 33 EOS x 3 symmetries x 4 initial states x 7^3 states; "
-                     "Newton: 12 EOS x 3 geometries x 2-5 initial states x 4-7 guesses"}
+BOUND = {"quick": "33 EOS instances x 17 densities x 12 values; 4 residual classes x 33 EOS x 3 symmetries x 4 initial states x 7^3 states; "
+                  "Newton: 12 EOS x 3 geometries x 2-5 initial states x 4-7 guesses x 2 modes",
+         "thorough": "43 EOS instances (10 more with gamma 1.2 / 2.0 and off-example constants) x 17 densities x 12 values; 4 residual classes x 43 EOS x "
+                     "3 symmetries x 4 initial states x 7^3 states; Newton: 22 EOS x 3 geometries x 2-5 initial states x 4-7 guesses x 2 modes"}
 RULE = ("tasks = (kind, EOS instance[, residual class, symmetry, initial state | geometry, initial state]); an evaluation is one call of a "
         "public EOS / residual / solver method; a case is non-trivial and distinct by (EOS, state) for closures, by (residual, EOS, "
         "symmetry, initial state, evaluation state) for Jacobians with a finite non-singular F_prime, and by (EOS, geometry, initial "
@@ -93,6 +93,9 @@ def eos_instances(tier):
         for b in (1, 0.01, 0.1):
             out.append(["carnahan", g, b])
     out += [AL, ST2, ST3]
+    if tier == "deep":      # thorough tier only: parameter values no shipped example uses
+        for g in (1.2, 2.0):
+            out += [["ideal", g], ["stiff", g, 1.0, 2.0], ["stiff", g, 3.0, 0.25], ["noble_abel", g, 0.3], ["carnahan", g, 0.3]]
     return out
 
 
@@ -161,16 +164,20 @@ def _d4(f, x, h):
 
 
 def tasks(tier, seed):
+    # the quick tier runs what used to be the thorough lattices (23 s on 12 cores); the thorough tier adds the 'deep' EOS
+    # instances to all three sub-checks.  `tier` below is the PARAMETER tier of the lattices.
+    deep = tier == "thorough"
+    tier = "thorough"
     out = []
-    for tag in eos_instances(tier):
+    for tag in eos_instances("deep" if deep else tier):
         out.append({"kind": "eos", "eos": tag, "tier": tier})
-    jac_eos = JAC_EOS_QUICK if tier == "quick" else eos_instances(tier)
+    jac_eos = eos_instances("deep" if deep else tier)
     for tag in jac_eos:
         for rc in RESIDUALS:
             for sym in (0, 1, 2):
                 for ic in range(len(IC_JAC)):
                     out.append({"kind": "jac", "eos": tag, "residual": rc, "symmetry": sym, "ic": ic, "tier": tier})
-    for tag in NEWTON_EOS[tier]:
+    for tag in NEWTON_EOS[tier] + ([t for t in eos_instances("deep") if t not in eos_instances("thorough")] if deep else []):
         for geom in (1, 2, 3):
             for ic in range(len(newton_ics(tag, tier))):
                 out.append({"kind": "newton", "eos": tag, "geometry": geom, "ic": ic, "tier": tier})
